@@ -9,6 +9,13 @@
 #include <dispatch/private.h>
 #include <sched.h>
 
+/* the exported function dispatch_once_f — `(dispatch_once_f)(...)` does not reach it: once.h defines an
+ * object-like macro of that name that expands to the inline fast path */
+#pragma push_macro("dispatch_once_f")
+#undef dispatch_once_f
+static void vf_once_function(dispatch_once_t *p, void *c, dispatch_function_t f) { dispatch_once_f(p, c, f); }
+#pragma pop_macro("dispatch_once_f")
+
 typedef struct {
 	uint64_t init_start, init_end;
 	_Atomic uint32_t inits;
@@ -57,13 +64,10 @@ static void *caller(void *arg)
 		}
 		oarg_t a = { t, i };
 		uint32_t how = vf_rnd_n(&c->rng, 3);
-#if VF_TSAN
-		how = 2; /* the inline fast path is a plain load by design; use the function */
-#endif
 		uint64_t call = vf_stamp();
-		if (how == 0) { oarg_t *ap = &a; dispatch_once(&t->preds[i], ^{ once_init(ap); }); }
-		else if (how == 1) dispatch_once_f(&t->preds[i], &a, once_init);
-		else (dispatch_once_f)(&t->preds[i], &a, once_init);
+		if (how == 0) { oarg_t *ap = &a; dispatch_once(&t->preds[i], ^{ once_init(ap); }); vf_tso_acquire(&t->preds[i]); }
+		else if (how == 1) { dispatch_once_f(&t->preds[i], &a, once_init); vf_tso_acquire(&t->preds[i]); }
+		else vf_once_function(&t->preds[i], &a, once_init);
 		uint64_t ret = vf_stamp();
 		t->rets[(size_t)c->id * (size_t)t->n + (size_t)i] = ret;
 		/* the initialiser's plain writes must be visible */
@@ -77,7 +81,7 @@ static void *caller(void *arg)
 	for (int i = 0; i < t->n; i += 7) {
 		oarg_t a = { t, i };
 		dispatch_once_f(&t->preds[i], &a, once_init);
-		(dispatch_once_f)(&t->preds[i], &a, once_init);
+		vf_once_function(&t->preds[i], &a, once_init);
 	}
 	return NULL;
 }
